@@ -7,7 +7,7 @@ ROOT = os.path.dirname(os.path.dirname(os.path.abspath(__file__)))
 ENV = dict(os.environ, GOFLAGS='-mod=mod', GOPROXY='off', GOSUMDB='off', GOTOOLCHAIN='local')
 
 def sh(cmd, cwd=None, env=ENV, timeout=3600):
-    p = subprocess.run(cmd, shell=True, cwd=cwd, env=env, capture_output=True, text=True, timeout=timeout)
+    p = subprocess.run(cmd, shell=True, cwd=cwd, env=env, capture_output=True, text=True, errors='replace', timeout=timeout)
     return p.returncode, p.stdout + p.stderr
 
 def main():
@@ -30,11 +30,12 @@ def main():
     meta = {'id': name, 'property': pid, 'source': 'sub-agent given only the property text and a scratch worktree', 'ran': []}
     try:
         # demo location / command from its header comment
-        head = open(demo).read()[:3000]
+        head = open(demo, errors='replace').read()[:3000]
         m = re.search(r'go test[^\n`]*', head)
         cmd = m.group(0).strip() if m else 'go test -vet=off -count=1 -run TestDemo%s .' % k
         dm = re.search(r'(?:copied? (?:in)?to|directory)[^\n]*?((?:/tmp/mut/%s|WORKTREE|\.)?/?(?:internal/\w+|types|\.))' % pid, head)
-        pkg = re.search(r'^package (\w+)', open(demo).read(), re.M).group(1)
+        pkg = re.search(r'^package (\w+)', open(demo, errors='replace').read(), re.M).group(1)
+        pkg = pkg[:-5] if pkg.endswith('_test') and pkg != 'mux_test' else pkg
         sub = '.'
         if pkg in ('tree', 'syntax', 'trace'):
             sub = 'internal/' + pkg
@@ -85,7 +86,7 @@ def finish(meta, out, patch, demo, src, k):
     n = os.path.join(src, 'notes_%s.md' % k)
     if os.path.exists(n):
         shutil.copy(n, os.path.join(out, 'notes.md'))
-        txt = open(n).read()
+        txt = open(n, errors='replace').read()
         meta['needs_to_manifest'] = txt[:1200]
     old = {}
     mp = os.path.join(out, 'meta.json')
